@@ -744,15 +744,16 @@ pub struct VecIntoIter<T> {
 impl<T> Iterator for VecIntoIter<T> {
     type Item = T;
     fn next(&mut self) -> Option<T> {
-        let mut j = 0;
-        while j < VCAP {
-            if j == self.pos && j < self.v.len {
-                self.pos = j + 1;
-                return self.v.buf[j].take();
-            }
-            j += 1;
+        // `pos` advances unconditionally and so stays a constant on every path: the solver sees the end of
+        // the iteration syntactically and a consuming loop is unrolled VCAP times, not `unwind` times.
+        // Slots at and beyond `len` are always None (push fills slot `len`, clear empties every slot, the
+        // sort only swaps occupied neighbours), so the first None ends the iteration exactly like std's.
+        if self.pos >= VCAP {
+            return None;
         }
-        None
+        let j = self.pos;
+        self.pos += 1;
+        self.v.buf[j].take()
     }
 }
 
